@@ -314,7 +314,7 @@ def gen_zero_rtt(r, idx, prefix=None):
             ops.append({"op": "write_all", "n": 70000})
         if r.random() < 0.2:
             ops[-1]["cancel"] = cancel_plan(r)
-            ops[-1]["retry"] = True
+            ops[-1]["retry"] = ops[-1]["op"] in CANCEL_SAFE
         tasks.append({"ep": -1, "ops": ops, "with_ep": False})
         cli["ops"].append({"op": "spawn", "t": len(tasks) - 1})
         # the server's counterpart (only ever sees the stream when early data is accepted or never at all)
